@@ -305,4 +305,42 @@ MUTANTS = [
     }
 
     pub fn new(psk: &'a [u8], psk_id: &'a [u8]) -> Result<Self, HpkeError> {""")]),
+    # ------------------------------------------------------------------ C10
+    dict(name='c10-zero-check-deleted', expect=[('C10', 'R10.1')],
+         note='needs a small-order public key (one of 14 encodings)',
+         edits=[(X25519, """        if res.as_bytes().ct_eq(&[0u8; 32]).into() {
+            Err(DhError)
+        } else {
+            Ok(KexResult(res))
+        }""", """        Ok(KexResult(res))""")]),
+    dict(name='c10-compare-31-bytes', expect=[('C10', 'R10.1')],
+         note='rejects also outputs whose first 31 bytes are zero; accepts nothing wrongly, but rejects valid keys',
+         edits=[(X25519, "if res.as_bytes().ct_eq(&[0u8; 32]).into() {", "if res.as_bytes()[..31].ct_eq(&[0u8; 31]).into() {")]),
+    dict(name='c10-compare-nonzero-const', expect=[('C10', 'R10.1')],
+         note='zero output accepted; output 0x01..01 rejected',
+         edits=[(X25519, "if res.as_bytes().ct_eq(&[0u8; 32]).into() {", "if res.as_bytes().ct_eq(&[1u8; 32]).into() {")]),
+    dict(name='c10-inverted-test', expect=[('C10', 'R10.1')],
+         note='would fail all tests (kept to show polarity is checked)',
+         edits=[(X25519, "if res.as_bytes().ct_eq(&[0u8; 32]).into() {", "if !bool::from(res.as_bytes().ct_eq(&[0u8; 32])) {")]),
+    dict(name='c10-ok-in-both-branches', expect=[('C10', 'R10.1')],
+         note='needs a small-order key',
+         edits=[(X25519, """            Err(DhError)
+        } else {
+            Ok(KexResult(res))""", """            Ok(KexResult(res))
+        } else {
+            Ok(KexResult(res))""")]),
+    dict(name='c10-identity-dh-unwrapped', expect=[('C10', 'R10.2')],
+         note='Auth mode + small-order recipient key: panic instead of EncapError',
+         edits=[(DHKEM, """                    let kex_res_identity = <$dhkex as DhKeyExchange>::dh(sk_sender_id, pk_recip)
+                        .map_err(|_| HpkeError::EncapError)?;""", """                    let kex_res_identity = <$dhkex as DhKeyExchange>::dh(sk_sender_id, pk_recip)
+                        .unwrap();""")]),
+    dict(name='c10-decap-reports-encaperror', expect=[('C10', 'R10.2'), ('C10', 'R10.3')],
+         note='receiver setup fails with EncapError for a small-order encapsulated key',
+         edits=[(DHKEM, """                    let kex_res_eph = <$dhkex as DhKeyExchange>::dh(sk_recip, &encapped_key.0)
+                        .map_err(|_| HpkeError::DecapError)?;""", """                    let kex_res_eph = <$dhkex as DhKeyExchange>::dh(sk_recip, &encapped_key.0)
+                        .map_err(|_| HpkeError::EncapError)?;""")]),
+    dict(name='c10-setup-remaps-error', expect=[('C10', 'R10.3')],
+         note='setup_receiver turns DecapError into ValidationError',
+         edits=[(SETUP, "let shared_secret = Kem::decap(sk_recip, pk_sender_id, encapped_key)?;",
+                 "let shared_secret = Kem::decap(sk_recip, pk_sender_id, encapped_key).map_err(|_| HpkeError::ValidationError)?;")]),
 ]
